@@ -72,6 +72,8 @@ def compare_runs(pinned, conc):
     for (l1, v1), (l2, v2) in zip(pinned["obs"], conc["obs"]):
         if l1 != l2:
             return f"observation label {l1} vs {l2}"
+        if v1 == "unobservable":
+            continue
         if not _same(v1, v2):
             return f"observation {l1}: {v1} vs {v2}"
     return None
